@@ -27,7 +27,8 @@ EXPLANATION = (
     "(R16.3) the set of written columns equals the component's get_component_input columns. (R16.4) for each "
     "single/bulk pair and each std-type/parameter pair: equal defaults of corresponding parameters, equal written "
     "column sets, corresponding validators. (R16.5) `:type x: ..., default V` in the docstring equals the signature "
-    "default. (R16.6) a create call changes the addressed table(s) only: with the std-type and component-toolbox "
+    "default. (R16.7) in the bulk writer a pandas Series argument is aligned by label only if all of its labels are labels of the new rows, "
+    "otherwise its values are used by position (as a list would be). (R16.6) a create call changes the addressed table(s) only: with the std-type and component-toolbox "
     "helpers inlined (copies kept as fresh objects), no store and no mutating method call of a create function targets "
     "an object whose possible origins (through element access, views, conditionals and .get) include net.std_types, "
     "net.fluid, net.user_pf_options or net.component_list. Not decided: dtype preservation and index uniqueness at run time (pandapower helpers are trusted).")
@@ -424,4 +425,45 @@ def r16_6(run):
     run.floor(25)
 
 
-RULES = [("R16.1", r16_1), ("R16.2", r16_2), ("R16.3", r16_3), ("R16.4", r16_4), ("R16.5", r16_5), ("R16.6", r16_6)]
+def r16_7(run):
+    """bulk creation equals one-by-one creation also for pandas Series arguments: a Series is aligned by label only if ALL of its
+    labels are labels of the new rows; otherwise its values are taken by position (label alignment of a partly overlapping Series
+    leaves NaN in some new rows and puts values into wrong rows)"""
+    from ..arrnf import ANF, norm_cond, show as tshow, walk
+    ix = run.index
+    f = ix.func("pandapipes.create._set_multiple_entries")
+    run.analysed(f)
+    inner = [n for n in f.node.body if isinstance(n, ast.FunctionDef)]
+    if len(inner) != 1:
+        raise AnalysisError("_set_multiple_entries no longer has one local entry filter")
+    from ..index import FunctionInfo
+    g = FunctionInfo(f.module, inner[0].name, inner[0], parent=f)
+    r = ANF(ix, g, param_alias={g.params()[0]: "val"}).run()
+    pos = [e for e in r.returns() if e.value == ("attr", ("n", "val"), "values")]
+    if len(pos) != 1 or not pos[0].cond:
+        raise AnalysisError("the positional arm of the Series filter was not found")
+    c_, p_ = norm_cond(*pos[0].cond[-1])
+    parts = list(c_[2]) if c_[0] == "bool" and c_[1] == "and" else [c_]
+    test = None
+    for x in parts:
+        x2, pol = norm_cond(x, p_)
+        if any(y[0] == "call" and y[1] == ("x", "numpy.isin") for y in walk(x2)):
+            test = (x2, pol)
+    if test is None:
+        raise AnalysisError("unrecognised shape: condition of the positional arm: %s" % tshow(c_)[:160])
+    t, pol = test
+    isin = [y for y in walk(t) if y[0] == "call" and y[1] == ("x", "numpy.isin")][0]
+    covers = isin[2][0] == ("attr", ("n", "val"), "index")
+    neg_inner = any(y[0] == "u" and y[1] == "~" and y[2] == isin for y in walk(t))
+    agg = t[1][1].split(".")[-1] if t[0] == "call" and t[1][0] == "x" else None
+    if agg not in ("all", "any") or not covers:
+        raise AnalysisError("unrecognised shape: Series label test %s" % tshow(t)[:160])
+    # positional  <=>  some label of the Series is not a new row label
+    positional_iff_some_missing = (agg == "all" and not neg_inner and pol is False) or (agg == "any" and neg_inner and pol is True)
+    run.ob("_set_multiple_entries|series-aligned-only-if-all-labels-are-new-rows", positional_iff_some_missing,
+           "a Series argument is used by position unless all of its labels are labels of the new rows", run.where(f, pos[0].node),
+           detail="positional when %s%s" % ("" if pol else "not ", tshow(t)[:120]))
+    run.floor(1)
+
+
+RULES = [("R16.1", r16_1), ("R16.2", r16_2), ("R16.3", r16_3), ("R16.4", r16_4), ("R16.5", r16_5), ("R16.6", r16_6), ("R16.7", r16_7)]
